@@ -231,6 +231,12 @@ thread_local! {
 }
 
 pub fn ctx() -> Option<Ctx> {
+  // while a controlled thread is unwinding (the execution is being torn down,
+  // or the code under test panicked) destructors may still use facade
+  // primitives: they get plain std behaviour, never a second unwind
+  if std::thread::panicking() {
+    return None;
+  }
   CTX.with(|c| c.borrow().clone())
 }
 pub fn in_controlled() -> bool {
